@@ -11,7 +11,8 @@
 
    `fixes` selects the tree that is modelled: `pinned` is the code as it is; `fix_rollback` = every
    failure path restores the configuration and clears the parser state; `fix_defer` = nothing is
-   written to a RIB before the whole file is known to be valid. *)
+   written to a RIB before the whole file is known to be valid; `fix_chain` = the withdraws owed to a
+   session that has not come up since an earlier reload survive the next reload. *)
 From Coq Require Import ZArith Bool List.
 From ExaV Require Import lib.Amap model.Model_Rib.
 Import ListNotations.
@@ -34,10 +35,12 @@ Record st := {
   ribs : amap Z nb           (* RIB._cache *)
 }.
 
-Record fixes := { fix_rollback : bool; fix_defer : bool }.
-Definition pinned : fixes := {| fix_rollback := false; fix_defer := false |}.
-Definition rollback_only : fixes := {| fix_rollback := true; fix_defer := false |}.
-Definition repaired : fixes := {| fix_rollback := true; fix_defer := true |}.
+Record fixes := { fix_rollback : bool; fix_defer : bool; fix_chain : bool }.
+Definition pinned : fixes := {| fix_rollback := false; fix_defer := false; fix_chain := false |}.
+Definition rollback_only : fixes := {| fix_rollback := true; fix_defer := false; fix_chain := false |}.
+(* roll-back and deferred RIB insertion repaired (/repo f8577ca, 9c55346, af12ba1) *)
+Definition repaired_failure : fixes := {| fix_rollback := true; fix_defer := true; fix_chain := false |}.
+Definition repaired : fixes := {| fix_rollback := true; fix_defer := true; fix_chain := true |}.
 
 (* the tree the correspondence check is run against (one line to change when /repo is repaired) *)
 Definition tree : fixes := repaired.
@@ -94,24 +97,29 @@ Definition prev_routes (s : st) (n : Z) : list route :=
 (* one committed neighbor: the parse effect, then Reactor.reload's decision.
    new peer: nothing more (the session is down; establishment re-queues the cache).
    same parameters: Peer.reconfigure = replace_reload(previous routes, new routes), at once when the
-     session is down, at the top of the next Peer._main iteration when it is established (taken at once here).
+     session is down (whatever the FSM state), at the top of the next Peer._main iteration when it is
+     established (taken at once here); Neighbor.previous is consumed.
    other parameters: Peer.reestablish = teardown 3, Peer._reset (reset_rib, neighbor hand-over; taken at
-     once here); the withdraws of replace_restart are owed at the next establishment. *)
-Definition commit_nb (s : st) (n : Z) (c : ncfg) (parsed_now : bool) (b0 : nb) : nb :=
+     once here); the withdraws of replace_restart are owed at the next establishment.
+   The withdraws still owed from an earlier reload (the session has not come up since) hang on the
+   Neighbor.previous of the definition that is being replaced: the code as it is loses them
+   (Neighbor.previous of the NEW definition only names the definition just replaced). *)
+Definition commit_nb (fx : fixes) (s : st) (n : Z) (c : ncfg) (parsed_now : bool) (b0 : nb) : nb :=
   let b1 := if parsed_now then parsed_nb b0 c else b0 in
+  let owed := (if fix_chain fx then npw b0 else []) ++ prev_routes s n in
   match aget Z.eqb n (peers s) with
-  | None => b1
+  | None => {| nsys := nsys b1; npw := [] |}
   | Some p =>
     if p =? nparams c
-    then {| nsys := run (rr_ops (prev_routes s n) (nroutes c)) (nsys b1); npw := npw b1 |}
-    else {| nsys := step (nsys b1) Drop; npw := leftover (prev_routes s n) (nroutes c) |}
+    then {| nsys := run (rr_ops owed (nroutes c)) (nsys b1); npw := [] |}
+    else {| nsys := step (nsys b1) Drop; npw := leftover owed (nroutes c) |}
   end.
 
 (* peers no longer configured are removed (Peer.remove -> stop -> rib.uncache; the main loop forgets
    the peer); a RIB without peer (left by a failed parse) stays *)
 Definition commit_ribs (fx : fixes) (s : st) (committed cfg : cfgmap) : amap Z nb :=
   build (fun n => match aget Z.eqb n committed with
-                  | Some c => Some (commit_nb s n c (fix_defer fx || amem Z.eqb n cfg) (get_nb n (ribs s)))
+                  | Some c => Some (commit_nb fx s n c (fix_defer fx || amem Z.eqb n cfg) (get_nb n (ribs s)))
                   | None => if amem Z.eqb n (peers s) then None else aget Z.eqb n (ribs s)
                   end)
         (merge_names (akeys (ribs s)) (akeys committed)).
@@ -188,16 +196,21 @@ Definition enc_nb (e : Z * nb) : list Z :=
   (-8) :: enc_routes (avalues (new_nlri (r s))) ++
   (-9) :: akeys (pend_w (r s)).
 
+(* every reload is observed: its return value and every RIB right after it *)
 Fixpoint returns (fx : fixes) (ops : list rop) (s : st) : list Z * st :=
   match ops with
   | [] => ([], s)
   | x :: rest =>
-    let here := match x with Reload o => [if snd (reload fx s o) then 1 else 0] | _ => [] end in
-    let '(more, fin) := returns fx rest (rstep fx s x) in
+    let s' := rstep fx s x in
+    let here := match x with
+                | Reload o => (-11) :: (if snd (reload fx s o) then 1 else 0) :: flat_map enc_nb (ribs s')
+                | _ => []
+                end in
+    let '(more, fin) := returns fx rest s' in
     (here ++ more, fin)
   end.
 
 Definition observe (fx : fixes) (ops : list rop) : list Z :=
-  let '(rets, s) := returns fx ops st0 in
-  (-1) :: rets ++ (-2) :: enc_cfg (neighbors s) ++ (-3) :: akeys (stale s)
+  let '(steps, s) := returns fx ops st0 in
+  steps ++ (-2) :: enc_cfg (neighbors s) ++ (-3) :: akeys (stale s)
   ++ (-4) :: flat_map (fun e => [fst e; snd e]) (peers s) ++ flat_map enc_nb (ribs s).
